@@ -105,13 +105,42 @@ theorem orAll_eq_bit_nonone (v : Nat) (hv : v = 1 ∨ v = 2 ∨ v = 4 ∨ v = 8)
     | nil => exact absurd rfl hne
     | cons x l => exact ⟨⟨x, by simp, hall x (by simp)⟩, fun t ht => Or.inl (hall t ht)⟩
 
-theorem singleOf_some : ∀ st < 16, ∀ d : SdState, (singleOf st = some d ↔
-    (d = .none ∨ d = .init ∨ d = .preOp ∨ d = .safeOp ∨ d = .op) ∧ st = d.toNat) := by
-  intro st hst d
-  have h16 : st = 0 ∨ st = 1 ∨ st = 2 ∨ st = 3 ∨ st = 4 ∨ st = 5 ∨ st = 6 ∨ st = 7 ∨ st = 8 ∨ st = 9 ∨ st = 10 ∨
-      st = 11 ∨ st = 12 ∨ st = 13 ∨ st = 14 ∨ st = 15 := by omega
-  rcases h16 with rfl | rfl | rfl | rfl | rfl | rfl | rfl | rfl | rfl | rfl | rfl | rfl | rfl | rfl | rfl | rfl <;>
-    cases d <;> simp [singleOf, popcount4, SdState.toNat]
+theorem ofNat_inj (a b : Nat) (h : SdState.ofNat a = SdState.ofNat b) : a = b := by
+  have ha : (SdState.ofNat a).toNat = a := by
+    unfold SdState.ofNat; repeat' split
+    all_goals simp_all [SdState.toNat]
+  have hb : (SdState.ofNat b).toNat = b := by
+    unfold SdState.ofNat; repeat' split
+    all_goals simp_all [SdState.toNat]
+  rw [← ha, ← hb, h]
+
+theorem singleState_some (l : List SdState) (d : SdState) :
+    singleState l = some d ↔ l ≠ [] ∧ ∀ s ∈ l, s = d := by
+  cases l with
+  | nil => simp [singleState]
+  | cons x rest =>
+    simp only [singleState]
+    by_cases hall : rest.all (fun state => state == x) = true
+    · rw [if_pos hall]
+      have hall' : ∀ s ∈ rest, s = x := by simpa using hall
+      constructor
+      · intro h
+        have hx : x = d := Option.some.inj h
+        exact ⟨by simp, fun s hs => by
+          rcases List.mem_cons.1 hs with rfl | hs
+          · exact hx
+          · rw [hall' s hs, hx]⟩
+      · rintro ⟨_, hv⟩
+        rw [hv x (by simp)]
+    · rw [if_neg hall]
+      constructor
+      · intro h; cases h
+      · rintro ⟨_, hv⟩
+        exfalso
+        apply hall
+        simp only [List.all_eq_true, beq_iff_eq]
+        intro s hs
+        rw [hv s (by simp [hs]), hv x (by simp)]
 
 theorem ofNat_toNat (v : Nat) : (SdState.ofNat v).toNat = v := by
   unfold SdState.ofNat
